@@ -192,3 +192,25 @@ Proof.
   intros. rewrite (src_ll_dirichlet_eq RExt (fun a => eq_refl) x y ltac:(assumption)), (src_ll_dirichlet_eq RExt (fun a => eq_refl) y x ltac:(symmetry; assumption)).
   apply C12_ll_dirichlet_partial.
 Qed.
+
+(* triangle inequalities inside the binary family, about the translated source (T_metrics_tri.v) *)
+Corollary C12_src_matching_triangle : forall x y z : list R, length x = length y -> length y = length z ->
+  src_matching RNum x z <= src_matching RNum x y + src_matching RNum y z.
+Proof.
+  intros x y z L1 L2. rewrite (src_matching_eq x z (eq_trans L1 L2)), (src_matching_eq x y L1), (src_matching_eq y z L2).
+  apply C12_matching_triangle; assumption.
+Qed.
+
+Corollary C12_src_rogers_tanimoto_triangle : forall x y z : list R, length x = length y -> length y = length z -> x <> [] ->
+  src_rogers_tanimoto RNum x z <= src_rogers_tanimoto RNum x y + src_rogers_tanimoto RNum y z.
+Proof.
+  intros x y z L1 L2 Hx. rewrite (src_rogers_tanimoto_eq x z (eq_trans L1 L2)), (src_rogers_tanimoto_eq x y L1), (src_rogers_tanimoto_eq y z L2).
+  apply C12_rogerstanimoto_triangle; assumption.
+Qed.
+
+Corollary C12_src_sokal_michener_triangle : forall x y z : list R, length x = length y -> length y = length z -> x <> [] ->
+  src_sokal_michener RNum x z <= src_sokal_michener RNum x y + src_sokal_michener RNum y z.
+Proof.
+  intros x y z L1 L2 Hx. rewrite (src_sokal_michener_eq x z (eq_trans L1 L2)), (src_sokal_michener_eq x y L1), (src_sokal_michener_eq y z L2).
+  apply C12_sokalmichener_triangle; assumption.
+Qed.
